@@ -136,6 +136,15 @@ def run(model, rep, tier):
                             rec = u[0].startswith("superdict['transmapping'][") or any(
                                 isinstance(a, ast.Assign) and unparse(a.targets[0]).startswith("superdict['transmapping'][")
                                 and unparse(a.value) == u[0] for a in walk_local(fn))
+                    if not rec:
+                        # collected in a list that is stored (as it is, or as a tuple) under superdict['transmapping'][tag]
+                        triple = '(%s, %s, %s)' % (k_, em[0]['_N_g'], em[0]['_N_m'])
+                        for ap in ast.walk(inner[0]):
+                            if isinstance(ap, ast.Call) and isinstance(ap.func, ast.Attribute) and ap.func.attr == 'append' \
+                                    and len(ap.args) == 1 and unparse(ap.args[0]) == triple:
+                                lst = unparse(ap.func.value)
+                                rec = any(isinstance(a, ast.Assign) and unparse(a.targets[0]).startswith("superdict['transmapping'][")
+                                          and unparse(a.value) in (lst, 'tuple(%s)' % lst) for a in walk_local(fn))
                 names = [e.id for e in c.iter.elts]
                 # (initial, final) order: the order in which the two supercells are stored as the transition
                 stored = pattern.find(fn, "superdict['transitions'][_N_t] = (_N_x, _N_y)")
